@@ -32,7 +32,7 @@ BOUNDS = {'quick': '(a) all i, j in 0..176; (b) all 44 sizes x rotating mask + a
                    '(d) Micro: 4 sizes all free; N3: one free row of 21 modules (and 11 with both edges); N1/N2: n x n all free n = 3..5, one free row/column window of <= 17 modules in '
                    'real 21/25/45 symbols, a free 2 x 10 block of two adjacent rows for N2; N4: Float64 lemma for 6 sizes; (e) _encode order / sequence masks; (f) segno.make(micro=True) with automatic mask on 6 content shapes of 1-5 symbolic bytes (thorough: + 6 bytes M4-Q, 9 bytes M4-L): mask in the symbol == first mask with the maximal ISO score',
           'thorough': '(b) all 44 sizes x all masks; (d) N3 row of 25; N1/N2: n = 6 all free, windows of 21 modules at start/middle/end of 5 lines in 6 sizes, 2 x 12 blocks for N2; N4: all 40 sizes'}
-OUTSIDE = ('N1 with more than 21 free modules in a line or more than one free line above n = 6; N2 with more than a 2 x 12 block of free modules (measured: 2 x 10 1.3 s, 2 x 12 21 s, two whole rows of 21 do not finish); N3 rows longer than 25; '
+OUTSIDE = ('if a restructured mask_scores branches on module values, the (d) jobs retry once with 3 x 3 / 8 / 2 x 4 free modules (recorded in the samples); N1 with more than 21 free modules in a line or more than one free line above n = 6; N2 with more than a 2 x 12 block of free modules (measured: 2 x 10 1.3 s, 2 x 12 21 s, two whole rows of 21 do not finish); N3 rows longer than 25; '
            'automatic selection end-to-end on symbolic content is decided for Micro symbols only (f: 6 (8) content shapes, all content bytes); for QR symbols the statement is composed from (b)+(c)+(d)')
 STUBS = ['(c) evaluate_mask / evaluate_micro_mask -> fresh symbolic score per call', '(d) n3_pattern_occurrences stubbed to 0 while N1/N2 are checked (it is checked on its own)',
          'float() of the dark count modelled in exact rational arithmetic inside mask_scores; the Float64 lemma shows float == rational floor for every count']
@@ -93,10 +93,36 @@ def jobs(tier, seed):
     return out
 
 
+SCORE_PATHS = [64]       # path budget of check_scores (raised for the reduced retry below)
+
+
 def run_job(spec):
     res = Result(spec['name'])
     L_ = common.sx(('consts', 'encoder'))
     k = spec['kind']
+    if k in ('allfree', 'window', 'tworows'):
+        # mask_scores is merged into one path per job as written today. If a restructured mask_scores branches on the module
+        # values (run-length grouping, comprehensions with conditions ...), the job would need 2^free paths: retry once with at
+        # most 8-9 free modules and a path budget that covers them, and say so in the sample - a smaller bound, not a failure.
+        from symx.explore import PathBudgetExceeded
+        try:
+            {'allfree': job_allfree, 'window': job_window, 'tworows': job_tworows}[k](res, L_, spec)
+            return res.as_dict()
+        except PathBudgetExceeded:
+            small = dict(spec)
+            if k == 'allfree':
+                small['n'] = 3
+            elif k == 'window':
+                small['w'] = 8
+            else:
+                small['w'] = 4
+            res = Result(spec['name'])
+            L_ = common.sx(('consts', 'encoder'))
+            SCORE_PATHS[0] = 1024
+            {'allfree': job_allfree, 'window': job_window, 'tworows': job_tworows}[k](res, L_, small)
+            res.sample({'case': spec['name'], 'reduced bound': 'mask_scores forks on module values here: decided for all values of '
+                        + {'allfree': '3 x 3 free modules', 'window': 'a window of 8 modules', 'tworows': 'a 2 x 4 block'}[k] + ' only'})
+            return res.as_dict()
     f = {'a': job_a, 'norm': job_norm, 'b': job_b, 'c': job_c, 'micro': job_micro, 'n3': job_n3, 'allfree': job_allfree,
          'window': job_window, 'tworows': job_tworows, 'n4': job_n4, 'sum': job_sum, 'order': job_order, 'e2e': job_e2e, 'seqmask': job_seqmask}[k]
     f(res, L_, spec)
@@ -490,7 +516,7 @@ def check_scores(res, L_, n, M, label, want_n1=True, want_n2=True, n2_rows=None)
             return run_mask_scores(enc, mat, n, n3_calls)
         finally:
             shadow.FLOAT_HOOK[:] = []
-    ex, paths = common.explore(run, max_paths=64)
+    ex, paths = common.explore(run, max_paths=SCORE_PATHS[0])
     res.paths += len(paths)
     free = [b for row in M for b in row if not isc(b)]
 
